@@ -751,23 +751,46 @@ Proof.
   destruct (all_some (map ocode t)) as [ct|]; [|discriminate]. inversion H. eauto.
 Qed.
 
+(* the loop of initFirstKmer over the codes of one base (repaired code: the limit is carried along) *)
+Section EachLim.
+Variable f : nat -> N -> graph -> option graph.
+Variable start : nat.
+Fixpoint each_lim (first : bool) (cs : list N) (key : N) (lim : nat) (g : graph) : option graph :=
+  match cs with
+  | [] => Some g
+  | c :: cs' =>
+    let key' := N.lor (clear2 key) c in
+    let lim' := if first then lim else if Nat.ltb start lim then start else lim in
+    match f lim' key' g with
+    | None => None
+    | Some g' => each_lim false cs' key' lim' g'
+    end
+  end.
+End EachLim.
+
+Lemma dbg_first_S : forall w n start K1 mask lim b t key g,
+  dbg_first (S n) start K1 mask w lim (b :: t) key g =
+  each_lim (fun lim' key' g' => dbg_first n (S start) K1 mask w lim' t key' g') start true (iupac b) (shl64 key 2) lim g.
+Proof. reflexivity. Qed.
+
 Lemma append_spec : forall k K w, K = N.to_nat k -> 1 <= k -> 2 * k < 64 ->
-  forall t ct rp cur g, all_some (map ocode t) = Some ct -> digits rp -> (K <= length rp + 1)%nat ->
-    cur = lval rp mod 4 ^ k ->
-    exists g', dbg_append (dbg_mask k) w t cur g = Some g' /\
+  forall K1 t lim ct rp cur g, all_some (map ocode t) = Some ct -> digits rp -> (K <= length rp + 1)%nat ->
+    cur = lval rp mod 4 ^ k -> (length t <= lim)%nat ->
+    exists g', dbg_append K1 (dbg_mask k) w lim t cur g = Some g' /\
       forall x, weight g' x = weight g x + w * count_n x (map kval (wends K rp ct)).
 Proof.
-  intros k K w HK Hk1 Hk2. induction t as [|b t IH]; intros ct rp cur g Hct Hrp Hlen Hcur.
+  intros k K w HK Hk1 Hk2 K1. induction t as [|b t IH]; intros lim ct rp cur g Hct Hrp Hlen Hcur Hlim.
   - inversion Hct; subst. exists g. split; [reflexivity|]. intro x. cbn. lia.
   - destruct (all_some_cons_inv _ _ _ Hct) as (c & ct' & -> & Hb & Hct').
+    destruct lim as [|l]; [cbn [length] in Hlim; lia|].
     cbn [dbg_append]. rewrite (ocode_iupac b c Hb).
     assert (Hc : c < 4) by (eapply ocode_digit; eassumption).
     rewrite dbg_mask_value by assumption. rewrite shl64_2.
     rewrite (fwd_step 64 k cur c (lval rp)); [|lia|lia|assumption|assumption].
     change (c + 4 * lval rp) with (lval (c :: rp)).
     assert (Hrp' : digits (c :: rp)) by (constructor; assumption).
-    destruct (IH ct' (c :: rp) (lval (c :: rp) mod 4 ^ k) (add_w (lval (c :: rp) mod 4 ^ k) w g) Hct' Hrp')
-      as (g' & Hg' & Hw'); [cbn [length]; lia|reflexivity|].
+    destruct (IH l ct' (c :: rp) (lval (c :: rp) mod 4 ^ k) (add_w (lval (c :: rp) mod 4 ^ k) w g) Hct' Hrp')
+      as (g' & Hg' & Hw'); [cbn [length]; lia|reflexivity|cbn [length] in Hlim; lia|].
     rewrite <- dbg_mask_value by assumption. rewrite Hg'. exists g'. split; [reflexivity|].
     intro x. rewrite Hw', weight_add. cbn [wends].
     destruct (Nat.leb_spec K (length rp + 1)) as [_|?]; [|lia].
@@ -785,24 +808,24 @@ Proof.
 Qed.
 
 Lemma first_spec : forall k K w, K = N.to_nat k -> 1 <= k -> 2 * k < 64 ->
-  forall n s cs rp key g, all_some (map ocode s) = Some cs -> digits rp -> key = lval rp ->
-    (length rp + n = K)%nat -> (n <= length s)%nat ->
-    exists g', dbg_first n (dbg_mask k) w s key g = Some g' /\
+  forall K1 n start lim s cs rp key g, all_some (map ocode s) = Some cs -> digits rp -> key = lval rp ->
+    (length rp + n = K)%nat -> (n <= length s)%nat -> (length s <= n + lim)%nat ->
+    exists g', dbg_first n start K1 (dbg_mask k) w lim s key g = Some g' /\
       forall x, weight g' x = weight g x + w * count_n x (kmers K (rev rp ++ cs)).
 Proof.
-  intros k K w HK Hk1 Hk2. induction n as [|n IH]; intros s cs rp key g Hcs Hrp Hkey Hlen Hn.
+  intros k K w HK Hk1 Hk2 K1. induction n as [|n IH]; intros start lim s cs rp key g Hcs Hrp Hkey Hlen Hn Hlim.
   - cbn [dbg_first].
     assert (HB : lval rp < 4 ^ k).
     { pose proof (lval_bound rp Hrp) as B. replace (N.of_nat (length rp)) with k in B by lia. exact B. }
-    destruct (append_spec k K w HK Hk1 Hk2 s cs rp key (add_w key w g) Hcs Hrp) as (g' & Hg' & Hw');
-      [lia|rewrite N.mod_small; assumption|].
+    destruct (append_spec k K w HK Hk1 Hk2 K1 s lim cs rp key (add_w key w g) Hcs Hrp) as (g' & Hg' & Hw');
+      [lia|rewrite N.mod_small; assumption|lia|].
     exists g'. split; [exact Hg'|]. intro x. rewrite Hw', weight_add. unfold kmers.
     rewrite windows_wends by lia. rewrite (windows_exact K (rev rp)) by (try rewrite rev_length; lia).
     cbn [app map count_n]. rewrite kval_lval_rev, rev_involutive. subst key.
     rewrite (N.eqb_sym (lval rp) x). destruct (_ =? _); lia.
   - destruct s as [|b t]; [cbn in Hn; lia|].
     destruct (all_some_cons_inv _ _ _ Hcs) as (c & ct & -> & Hb & Hct).
-    cbn [dbg_first]. rewrite (ocode_iupac b c Hb).
+    rewrite dbg_first_S. rewrite (ocode_iupac b c Hb). cbn [each_lim].
     assert (Hc : c < 4) by (eapply ocode_digit; eassumption).
     assert (HB : lval rp < 2 ^ 60).
     { pose proof (lval_bound rp Hrp) as B. eapply N.lt_le_trans; [exact B|].
@@ -815,8 +838,8 @@ Proof.
       rewrite lor_mul4 by assumption. cbn [lval]. lia. }
     rewrite E.
     assert (Hrp' : digits (c :: rp)) by (constructor; assumption).
-    destruct (IH t ct (c :: rp) (lval (c :: rp)) g Hct Hrp' eq_refl) as (g' & Hg' & Hw');
-      [cbn [length]; lia|cbn [length] in Hn; lia|].
+    destruct (IH (S start) lim t ct (c :: rp) (lval (c :: rp)) g Hct Hrp' eq_refl) as (g' & Hg' & Hw');
+      [cbn [length]; lia|cbn [length] in Hn; lia|cbn [length] in Hlim; lia|].
     rewrite Hg'. exists g'. split; [reflexivity|]. intro x. rewrite Hw'.
     cbn [rev]. rewrite <- app_assoc. reflexivity.
 Qed.
@@ -831,8 +854,9 @@ Proof.
     - inversion H; reflexivity.
     - destruct (all_some_cons_inv _ _ _ H) as (c & ct & -> & _ & Hct). cbn [length]. f_equal. auto. }
   destruct (N.leb_spec k (N.of_nat (length s))) as [L|L].
-  - destruct (first_spec k (N.to_nat k) w eq_refl Hk1 Hk2 (N.to_nat k) s cs [] 0 g Hcs) as (g' & Hg' & Hw');
-      [apply Forall_nil|reflexivity|cbn [length]; lia|lia|].
+  - destruct (first_spec k (N.to_nat k) w eq_refl Hk1 Hk2 (N.to_nat k - 1)%nat (N.to_nat k) 0%nat
+                (length s - N.to_nat k)%nat s cs [] 0 g Hcs) as (g' & Hg' & Hw');
+      [apply Forall_nil|reflexivity|cbn [length]; lia|lia|lia|].
     exists g'. split; [exact Hg'|exact Hw'].
   - exists g. split; [reflexivity|]. intro x. unfold kmers. rewrite windows_short by lia. cbn. lia.
 Qed.
@@ -1222,7 +1246,7 @@ Definition compat_occ (K : nat) (s : list N) (x : N) : N :=
   fold_right (fun w a => (if existsb (N.eqb x) (map kval (expand w)) then 1 else 0) + a) 0 (windows K s).
 
 Lemma weights_iupac_neither_reading :
-  exists k s x g, dbg_build k [(s, 1)] = Some g /\
+  exists k s x g, dbg_build_pre k [(s, 1)] = Some g /\
     weight g x <> full_occ (N.to_nat k) s x /\ weight g x <> compat_occ (N.to_nat k) s x /\
     weight g x = 4 /\ full_occ (N.to_nat k) s x = 16 /\ compat_occ (N.to_nat k) s x = 1.
 Proof.
@@ -1232,7 +1256,7 @@ Qed.
 
 (* reading direction matters: `nac` and `acn` both contain the window `ac` once and have 4 expansions *)
 Lemma weights_iupac_direction :
-  exists g1 g2, dbg_build 2 [([110; 97; 99], 1)] = Some g1 /\ dbg_build 2 [([97; 99; 110], 1)] = Some g2 /\
+  exists g1 g2, dbg_build_pre 2 [([110; 97; 99], 1)] = Some g1 /\ dbg_build_pre 2 [([97; 99; 110], 1)] = Some g2 /\
                 weight g1 1 = 4 /\ weight g2 1 = 1.
 Proof. eexists. eexists. split; [vm_compute; reflexivity|]. split; [vm_compute; reflexivity|]. vm_compute. auto. Qed.
 
@@ -1329,13 +1353,13 @@ Qed.
 Definition nonempty_codes (s : list N) : Prop := Forall (fun b => iupac b <> []) s.
 
 Lemma append_iupac : forall t rp cur g, nonempty_codes t -> digits rp -> cur = kmer_of k rp ->
-  exists g', dbg_append (dbg_mask k) w t cur g = Some g' /\
+  exists g', dbg_append_pre (dbg_mask k) w t cur g = Some g' /\
     forall x, weight g' x = weight g x + w * count_n x (map (kmer_of k) (pexp rp t)).
 Proof.
   induction t as [|b t IH]; intros rp cur g Hne Hrp Hcur.
   - exists g. split; [reflexivity|]. intro x. cbn. lia.
   - inversion Hne as [|? ? Hb Hne']; subst.
-    cbn [dbg_append pexp].
+    cbn [dbg_append_pre pexp].
     pose proof (iupac_codes_lt b) as Hlt.
     destruct (iupac b) as [|c0 cs]; [congruence|].
     assert (Hc0 : c0 < 4) by (apply Hlt; left; reflexivity).
@@ -1399,9 +1423,9 @@ Fixpoint each_code (cs : list N) (key : N) (g : graph) : option graph :=
   end.
 End Each.
 
-Lemma dbg_first_S : forall n mask b t key g,
-  dbg_first (S n) mask w (b :: t) key g =
-  each_code (fun key' g' => dbg_first n mask w t key' g') (iupac b) (shl64 key 2) g.
+Lemma dbg_first_pre_S : forall n mask b t key g,
+  dbg_first_pre (S n) mask w (b :: t) key g =
+  each_code (fun key' g' => dbg_first_pre n mask w t key' g') (iupac b) (shl64 key 2) g.
 Proof. reflexivity. Qed.
 
 Lemma each_loop : forall (f : N -> graph -> option graph) (cnt : N -> N -> N) base cs,
@@ -1425,13 +1449,13 @@ Qed.
 Lemma first_iupac : forall K, K = N.to_nat k ->
   forall n s rp key g, nonempty_codes s -> digits rp -> key = lval rp ->
     (length rp + n = K)%nat -> (n <= length s)%nat ->
-    exists g', dbg_first n (dbg_mask k) w s key g = Some g' /\
+    exists g', dbg_first_pre n (dbg_mask k) w s key g = Some g' /\
       forall x, weight g' x = weight g x +
         w * ((if (n =? 0)%nat then (if kmer_of k rp =? x then 1 else 0) else 0)
              + count_n x (map (kmer_of k) (filter (long K) (pexp rp s)))).
 Proof.
   intros K HK. induction n as [|n IH]; intros s rp key g Hne Hrp Hkey Hlen Hn.
-  - cbn [dbg_first Nat.eqb].
+  - cbn [dbg_first_pre Nat.eqb].
     assert (HB : lval rp < 4 ^ k).
     { pose proof (lval_bound rp Hrp) as B. replace (N.of_nat (length rp)) with k in B by lia. exact B. }
     assert (Ek : kmer_of k rp = key) by (unfold kmer_of; rewrite N.mod_small by assumption; congruence).
@@ -1439,7 +1463,7 @@ Proof.
     exists g'. split; [exact Hg'|]. intro x. rewrite Hw', weight_add, Ek.
     rewrite filter_long_all by lia. destruct (key =? x); lia.
   - destruct s as [|b t]; [cbn in Hn; lia|]. pose proof (Forall_inv Hne) as Hb. pose proof (Forall_inv_tail Hne) as Hne'. cbv beta in Hb.
-    subst key. rewrite dbg_first_S. cbn [pexp]. replace (S n =? 0)%nat with false by reflexivity.
+    subst key. rewrite dbg_first_pre_S. cbn [pexp]. replace (S n =? 0)%nat with false by reflexivity.
     assert (HB : lval rp < 2 ^ 60).
     { pose proof (lval_bound rp Hrp) as B. eapply N.lt_le_trans; [exact B|].
       rewrite pow4_2. apply N.pow_le_mono_r; lia. }
@@ -1452,7 +1476,7 @@ Proof.
     rewrite E0.
     set (cnt := fun c x => (if (n =? 0)%nat then (if kmer_of k (c :: rp) =? x then 1 else 0) else 0)
                            + count_n x (map (kmer_of k) (filter (long K) (pexp (c :: rp) t)))).
-    destruct (each_loop (fun key' g' => dbg_first n (dbg_mask k) w t key' g') cnt (lval rp) (iupac b) HB2
+    destruct (each_loop (fun key' g' => dbg_first_pre n (dbg_mask k) w t key' g') cnt (lval rp) (iupac b) HB2
                 (iupac_codes_lt b)) with (cprev := 0) (g0 := g) as (g' & Hg' & Hw'); [|reflexivity|].
     { intros c g0 Hc. assert (Hc4 : c < 4) by (apply (iupac_codes_lt b); exact Hc).
       replace (4 * lval rp + c) with (lval (c :: rp)) by (cbn [lval]; lia).
@@ -1502,10 +1526,10 @@ Proof.
 Qed.
 
 Lemma push_iupac : forall k w g s, 1 <= k -> 2 * k < 64 -> nonempty_codes s ->
-  exists g', dbg_push_with true k g (s, w) = Some g' /\
+  exists g', dbg_push_pre_with true k g (s, w) = Some g' /\
     forall x, weight g' x = weight g x + w * prefix_occ k s x.
 Proof.
-  intros k w g s Hk1 Hk2 Hne. unfold dbg_push_with.
+  intros k w g s Hk1 Hk2 Hne. unfold dbg_push_pre_with.
   destruct (N.leb_spec k (N.of_nat (length s))) as [L|L].
   - destruct (first_iupac k w Hk1 Hk2 (N.to_nat k) eq_refl (N.to_nat k) s [] 0 g Hne) as (g' & Hg' & Hw');
       [apply Forall_nil|reflexivity|cbn [length]; lia|lia|].
@@ -1523,20 +1547,20 @@ Fixpoint total_prefix_weight (k : N) (seqs : list (list N * N)) (x : N) : N :=
   end.
 
 Lemma build_iupac : forall k seqs g, 1 <= k -> 2 * k < 64 -> Forall (fun sq => nonempty_codes (fst sq)) seqs ->
-  exists g', dbg_build_with true k seqs g = Some g' /\
+  exists g', dbg_build_pre_with true k seqs g = Some g' /\
     forall x, weight g' x = weight g x + total_prefix_weight k seqs x.
 Proof.
   intros k seqs. induction seqs as [|[s w] seqs IH]; intros g Hk1 Hk2 Hall.
   - exists g. split; [reflexivity|]. intro x. cbn. lia.
   - pose proof (Forall_inv Hall) as Hs. pose proof (Forall_inv_tail Hall) as Hall'. cbn [fst] in Hs.
-    cbn [dbg_build_with].
+    cbn [dbg_build_pre_with].
     destruct (push_iupac k w g s Hk1 Hk2 Hs) as (g1 & Hg1 & Hw1). rewrite Hg1.
     destruct (IH g1 Hk1 Hk2 Hall') as (g' & Hg' & Hw'). exists g'. split; [exact Hg'|].
     intro x. rewrite Hw', Hw1. cbn [total_prefix_weight]. lia.
 Qed.
 
 Lemma weights_iupac_exact : forall k seqs, 1 <= k -> k <= 31 -> Forall (fun sq => nonempty_codes (fst sq)) seqs ->
-  exists g, dbg_build k seqs = Some g /\ forall x, weight g x = total_prefix_weight k seqs x.
+  exists g, dbg_build_pre k seqs = Some g /\ forall x, weight g x = total_prefix_weight k seqs x.
 Proof.
   intros k seqs H1 H2 Hall. destruct (build_iupac k seqs [] H1 ltac:(lia) Hall) as (g & Hg & Hw).
   exists g. split; [exact Hg|]. intro x. rewrite Hw. reflexivity.
@@ -1660,19 +1684,20 @@ Variables (k : N) (w : N).
 Hypothesis Hk1 : 1 <= k.
 Hypothesis Hk2 : 2 * k < 64.
 
-Lemma append_keys : forall t rp cur g g', digits rp -> cur = kmer_of k rp ->
-  dbg_append (dbg_mask k) w t cur g = Some g' -> keys_lt k g -> keys_lt k g'.
+Lemma append_keys : forall K1 t lim rp cur g g', digits rp -> cur = kmer_of k rp ->
+  dbg_append K1 (dbg_mask k) w lim t cur g = Some g' -> keys_lt k g -> keys_lt k g'.
 Proof.
-  induction t as [|b t IH]; intros rp cur g g' Hrp Hcur H Hg.
+  intro K1. induction t as [|b t IH]; intros lim rp cur g g' Hrp Hcur H Hg.
   - inversion H; subst. exact Hg.
-  - cbn [dbg_append] in H.
+  - destruct lim as [|l]; [inversion H; subst; exact Hg|].
+    cbn [dbg_append] in H.
     pose proof (iupac_codes_lt b) as Hlt.
     destruct (iupac b) as [|c0 cs]; [discriminate|].
     assert (Hc0 : c0 < 4) by (apply Hlt; left; reflexivity).
     rewrite (roll_value k Hk1 Hk2 _ c0 rp Hrp Hc0 Hcur) in H.
-    destruct (dbg_append (dbg_mask k) w t (kmer_of k (c0 :: rp)) (add_w (kmer_of k (c0 :: rp)) w g)) as [g0|] eqn:E0; [|discriminate].
+    destruct (dbg_append K1 (dbg_mask k) w l t (kmer_of k (c0 :: rp)) (add_w (kmer_of k (c0 :: rp)) w g)) as [g0|] eqn:E0; [|discriminate].
     assert (Hg0 : keys_lt k g0).
-    { eapply (IH (c0 :: rp)); [constructor; assumption|reflexivity|exact E0|].
+    { eapply (IH l (c0 :: rp)); [constructor; assumption|reflexivity|exact E0|].
       apply keys_lt_add; [apply kmer_of_lt|exact Hg]. }
     assert (Hcs : forall c, In c cs -> c < 4) by (intros c Hc; apply Hlt; right; exact Hc).
     clear E0 Hg Hlt. revert H Hg0. generalize g0. generalize c0 Hc0. clear c0 Hc0 g0.
@@ -1680,37 +1705,39 @@ Proof.
     + inversion H; subst. exact Hg0.
     + assert (Hc : c < 4) by (apply Hcs; left; reflexivity).
       rewrite (sibling_value k Hk1 Hk2 cprev c rp Hcprev Hc) in H.
-      destruct (dbg_append (dbg_mask k) w t (kmer_of k (c :: rp)) (add_w (kmer_of k (c :: rp)) w g0)) as [g1|] eqn:E1; [|discriminate].
+      destruct (dbg_append K1 (dbg_mask k) w (Nat.min l K1) t (kmer_of k (c :: rp)) (add_w (kmer_of k (c :: rp)) w g0)) as [g1|] eqn:E1; [|discriminate].
       apply (IHcs ltac:(intros c' Hc'; apply Hcs; right; exact Hc') c Hc g1 H).
-      eapply (IH (c :: rp)); [constructor; assumption|reflexivity|exact E1|].
+      eapply (IH (Nat.min l K1) (c :: rp)); [constructor; assumption|reflexivity|exact E1|].
       apply keys_lt_add; [apply kmer_of_lt|exact Hg0].
 Qed.
 
-Lemma each_keys : forall (f : N -> graph -> option graph) base cs,
+Lemma each_lim_keys : forall (f : nat -> N -> graph -> option graph) start base cs,
   base < 2 ^ 62 -> (forall c, In c cs -> c < 4) ->
-  (forall c g0 g1, In c cs -> f (4 * base + c) g0 = Some g1 -> keys_lt k g0 -> keys_lt k g1) ->
-  forall cprev g0 g', cprev < 4 -> each_code f cs (4 * base + cprev) g0 = Some g' -> keys_lt k g0 -> keys_lt k g'.
+  (forall lim c g0 g1, In c cs -> f lim (4 * base + c) g0 = Some g1 -> keys_lt k g0 -> keys_lt k g1) ->
+  forall first cprev lim g0 g', cprev < 4 -> each_lim f start first cs (4 * base + cprev) lim g0 = Some g' ->
+    keys_lt k g0 -> keys_lt k g'.
 Proof.
-  intros f base cs Hbase. induction cs as [|c cs IH]; intros Hlt Hf cprev g0 g' Hcprev H Hg0.
+  intros f start base cs Hbase. induction cs as [|c cs IH]; intros Hlt Hf first cprev lim g0 g' Hcprev H Hg0.
   - inversion H; subst. exact Hg0.
-  - cbn [each_code] in H. assert (Hc : c < 4) by (apply Hlt; left; reflexivity).
+  - cbn [each_lim] in H. assert (Hc : c < 4) by (apply Hlt; left; reflexivity).
     rewrite (clear2_low base cprev Hbase Hcprev) in H. rewrite lor_mul4 in H by assumption.
-    destruct (f (4 * base + c) g0) as [g1|] eqn:E1; [|discriminate].
+    match type of H with match f ?L _ _ with _ => _ end = _ => set (lim' := L) in * end.
+    destruct (f lim' (4 * base + c) g0) as [g1|] eqn:E1; [|discriminate].
     apply (IH ltac:(intros; apply Hlt; right; assumption)
-              ltac:(intros c' a b' Hc'; apply Hf; right; assumption) c g1 g' Hc H).
+              ltac:(intros l' c' a b' Hc'; apply Hf; right; assumption) false c lim' g1 g' Hc H).
     eapply Hf; [left; reflexivity|exact E1|exact Hg0].
 Qed.
 
-Lemma first_keys : forall n s rp key g g', digits rp -> key = lval rp ->
+Lemma first_keys : forall K1 n start lim s rp key g g', digits rp -> key = lval rp ->
   (length rp + n = N.to_nat k)%nat ->
-  dbg_first n (dbg_mask k) w s key g = Some g' -> keys_lt k g -> keys_lt k g'.
+  dbg_first n start K1 (dbg_mask k) w lim s key g = Some g' -> keys_lt k g -> keys_lt k g'.
 Proof.
-  induction n as [|n IH]; intros s rp key g g' Hrp Hkey Hlen H Hg.
+  intro K1. induction n as [|n IH]; intros start lim s rp key g g' Hrp Hkey Hlen H Hg.
   - cbn [dbg_first] in H.
     assert (HB : lval rp < 4 ^ k).
     { pose proof (lval_bound rp Hrp) as B. replace (N.of_nat (length rp)) with k in B by lia. exact B. }
     assert (Ek : key = kmer_of k rp) by (unfold kmer_of; rewrite N.mod_small by assumption; congruence).
-    eapply (append_keys s rp key); [exact Hrp|exact Ek|exact H|].
+    eapply (append_keys K1 s lim rp key); [exact Hrp|exact Ek|exact H|].
     apply keys_lt_add; [rewrite Ek; apply kmer_of_lt|exact Hg].
   - destruct s as [|b t]; [discriminate|]. subst key. rewrite dbg_first_S in H.
     assert (HB : lval rp < 2 ^ 60).
@@ -1723,13 +1750,13 @@ Proof.
       rewrite N.mod_small by (unfold W64; change (2 ^ 64) with 18446744073709551616; change (2 ^ 60) with 1152921504606846976 in HB; lia).
       lia. }
     rewrite E0 in H.
-    assert (HF : forall c g0 g1, In c (iupac b) ->
-              (fun key' g' => dbg_first n (dbg_mask k) w t key' g') (4 * lval rp + c) g0 = Some g1 -> keys_lt k g0 -> keys_lt k g1).
-    { intros c g0 g1 Hc Hf Hg0. cbv beta in Hf.
+    assert (HF : forall lim' c g0 g1, In c (iupac b) ->
+              (fun lim' key' g' => dbg_first n (S start) K1 (dbg_mask k) w lim' t key' g') lim' (4 * lval rp + c) g0 = Some g1 -> keys_lt k g0 -> keys_lt k g1).
+    { intros lim' c g0 g1 Hc Hf Hg0. cbv beta in Hf.
       assert (Hc4 : c < 4) by (apply (iupac_codes_lt b); exact Hc).
       replace (4 * lval rp + c) with (lval (c :: rp)) in Hf by (cbn [lval]; lia).
-      eapply (IH t (c :: rp)); [constructor; assumption|reflexivity|cbn [length]; lia|exact Hf|exact Hg0]. }
-    exact (each_keys _ (lval rp) (iupac b) HB2 (iupac_codes_lt b) HF 0 g g' eq_refl H Hg).
+      eapply (IH (S start) lim' t (c :: rp)); [constructor; assumption|reflexivity|cbn [length]; lia|exact Hf|exact Hg0]. }
+    exact (each_lim_keys _ start (lval rp) (iupac b) HB2 (iupac_codes_lt b) HF true 0 lim g g' eq_refl H Hg).
 Qed.
 End Keys.
 
@@ -1741,7 +1768,7 @@ Proof.
   - cbn [dbg_build_with] in H. destruct (dbg_push_with true k g (s, w)) as [g1|] eqn:E1; [|discriminate].
     apply (IH g1 g' Hk1 Hk2 H). unfold dbg_push_with in E1.
     destruct (k <=? N.of_nat (length s)).
-    + eapply (first_keys k w Hk1 Hk2 (N.to_nat k) s [] 0); [apply Forall_nil|reflexivity|cbn [length]; lia|exact E1|exact Hg].
+    + eapply (first_keys k w Hk1 Hk2 _ (N.to_nat k) 0%nat _ s [] 0); [apply Forall_nil|reflexivity|cbn [length]; lia|exact E1|exact Hg].
     + inversion E1; subst. exact Hg.
 Qed.
 
